@@ -4,7 +4,8 @@
    Only statements; proofs in Proofs/PermsP.v and Proofs/MpsFormP.v.  Dense-state claims (operators, add,
    compression error, group/split) are checked by the oracle of harness/c09.py, not proved. *)
 From TenpyV Require Import Base.Prelude Model.MpsIndex Model.MpsForm Model.Perms Proofs.MpsFormP Proofs.PermsP.
-From TenpyV Require Import Model.MpsAdd Proofs.MpsAddP.
+From TenpyV Require Import Model.MpsAdd Proofs.MpsAddP Model.MpsAddCheck Proofs.MpsAddCheckP.
+From TenpyV Require Import Model.SwapSign Proofs.SwapSignP.
 Open Scope Z_scope.
 
 (* the while-loop of permute_sites terminates within the stated fuel for EVERY list, ends with a sorted perm list,
@@ -83,7 +84,13 @@ Qed.
    column index over the shared right boundary; both of dimension 1 for bc='finite').  alpha, beta are the
    prefactors after multiplication with self.norm / other.norm as in the code.  The second statement is the same with
    the physical legs: for every configuration (p_1..p_L) the amplitude of the sum MPS is the linear combination.
-   Not covered: the canonical_form_finite(renormalize=False) that MPS.add calls afterwards (numerics; oracle of c09.py). *)
+   Not covered: the canonical_form_finite(renormalize=False) that MPS.add calls afterwards (numerics; oracle of c09.py).
+   TIE: `tadd` is executed against MPS.add in the correspondence stream `add-blocks` of harness/c09.py
+   (Model/MpsAddCheck.v): integer tensors, trivial charges, L = 2..5, non-uniform bond dimensions 1..3, finite and
+   segment bc (shared outer bonds of dimension 1..2), stored forms A/B/G/Th with singular values 1, 2, 4, integer
+   alpha, beta and norms; canonical_form_finite is a no-op during the call, so the observed tensors are the
+   npc.grid_concat results; all dimensions and entries are compared with tadd (alpha*norm) (beta*norm') applied to
+   get_B(0, 'Th'), get_B(i, 'B'). *)
 Theorem T09_add_linear : forall (alpha beta : Z) (As Bs : chain),
   length As = length Bs -> (2 <= length As)%nat ->
   forall i j, chain_prod (add_chain alpha beta As Bs) i j = alpha * chain_prod As i j + beta * chain_prod Bs i j.
@@ -93,6 +100,61 @@ Theorem T09_add_linear_tensors : forall (alpha beta : Z) (TA TB : tchain) (ps : 
   length TA = length TB -> (2 <= length TA)%nat -> length ps = length TA ->
   forall i j, amplitude (tadd alpha beta TA TB) ps i j = alpha * amplitude TA ps i j + beta * amplitude TB ps i j.
 Proof. exact tadd_linear. Qed.
+
+(* the sign matrix MPS.swap_sites(i, swap_op='auto') builds (Model/SwapSign.v; executed against the operand swap_sites
+   really contracts with theta on mixed chains by the stream `swap-sign` of harness/c09_swapsign.py), for
+   HETEROGENEOUS neighbours: jwL = JW_exponent of the LEFT site get_site(i) (dimension dL), jwR of the RIGHT site
+   get_site(i+1) (dimension dR), any lengths, any integer exponents.  For all local states a < dL, b < dR the entry e of
+   the diagonal at the flattened index a*dR+b
+     - is -1 iff both exponents are odd, +1 otherwise;
+     - is the Fock-space sign of (c^dag_i)^{na} (c^dag_{i+1})^{nb} -> (c^dag_{i+1})^{nb} (c^dag_i)^{na} for every pair
+       of occupation numbers with these parities (parity of the number of adjacent transpositions of anticommuting
+       creation operators, counted with ginv of Model/Perms.v);
+     - is the only non-zero entry of the labelled array ['p1','p0','p0*','p1*'] = reshape [dL,dR,dL,dR] in the row
+       (out-legs) p0 = b (state of the former right site, now on position i), p1 = a, at the column p0* = a, p1* = b;
+     - is the sign one swap of the permute_sites loop model (Model/Perms.v, `step`; collected into
+       T09_permute_arrangement's p_sign) applies when the two positions carry these parities.
+   The matrix is the identity iff no pair of states with two odd exponents exists; the shortcut swap_op=None (plain
+   relabeling) is taken only then, and for 0/1 exponents exactly then. *)
+(* soundness of the correspondence checker of the stream `add-blocks` (Model/MpsAddCheck.v): whenever check_add_case
+   accepts a recorded call psi.add(other, alpha, beta) -- TA, TB the tensors get_B(0,'Th'), get_B(i,'B') of the two
+   inputs, TC the tensors the real code handed to the constructor of the sum, nA/nB the two norms -- then the chains
+   have equal length L >= 2 and for EVERY physical configuration ps inside the recorded physical dimensions the
+   amplitude of the OBSERVED tensors TC is alpha*nA * amplitude(TA) + beta*nB * amplitude(TB), for every row index of
+   the shared left boundary and every column index of the shared right boundary.  Hence every accepted case of the
+   stream is an instance where the code's own tensors provably denote the documented linear combination (before the
+   canonicalisation, which the oracle checks). *)
+Theorem T09_add_check_sound : forall (alpha nA beta nB : Z) (TA TB TC : list ltens),
+  check_add_case (alpha, nA, beta, nB, TA, TB, TC) = true ->
+  length TA = length TB /\ length TC = length TA /\ (2 <= length TA)%nat /\
+  forall (ps : list nat) (i j : nat),
+    Forall2 in_pdim ps TC ->
+    (i < rows_of (hd dltens TA))%nat -> (j < cols_of (last TC dltens))%nat ->
+    amplitude (tchain_of TC) ps i j =
+      (alpha * nA) * amplitude (tchain_of TA) ps i j + (beta * nB) * amplitude (tchain_of TB) ps i j.
+Proof. exact add_check_sound. Qed.
+
+Theorem T09_swap_sign_table : forall (jwL jwR : list Z),
+  let dL := length jwL in let dR := length jwR in
+  length (swap_diag jwL jwR) = (dL * dR)%nat /\
+  (forall a b, (a < dL)%nat -> (b < dR)%nat ->
+     let e := nth (a * dR + b) (swap_diag jwL jwR) 0 in
+     e = sign_ab jwL jwR a b /\
+     (e = -1 <-> Z.odd (nth a jwL 0) = true /\ Z.odd (nth b jwR 0) = true) /\
+     (forall na nb, Nat.odd na = Z.odd (nth a jwL 0) -> Nat.odd nb = Z.odd (nth b jwR 0) ->
+        e = fock_exchange_sign na nb) /\
+     (forall a' b', (a' < dL)%nat -> (b' < dR)%nat ->
+        swap_op_entry jwL jwR b a a' b' = if ((a =? a') && (b =? b'))%nat then e else 0) /\
+     (forall s s', step s = Some s' ->
+        (nth (Datatypes.S (p_i s)) (p_perm s) 0 <? nth (p_i s) (p_perm s) 0) = true ->
+        parity_at (p_arr s) (p_i s) = Z.odd (nth a jwL 0) ->
+        parity_at (p_arr s) (Datatypes.S (p_i s)) = Z.odd (nth b jwR 0) ->
+        p_sign s' = xorb (p_sign s) (e =? -1))) /\
+  (Forall (fun x => x = 1) (swap_diag jwL jwR) <-> no_odd_pair jwL jwR) /\
+  (swap_op_auto jwL jwR = None -> no_odd_pair jwL jwR) /\
+  (forall dg, swap_op_auto jwL jwR = Some dg -> dg = swap_diag jwL jwR) /\
+  (is_parity jwL -> is_parity jwR -> (swap_op_auto jwL jwR = None <-> no_odd_pair jwL jwR)).
+Proof. exact swap_sign_table. Qed.
 
 Example ex_permute :
   let r := permute [2; 0; 3; 1] [(10, true); (11, true); (12, false); (13, true)] in
@@ -115,6 +177,25 @@ Example ex_add :
   map fst (add_chain 2 (-3) ex_As ex_Bs) = [3%nat; 5%nat; 1%nat].
 Proof. vm_compute. repeat split; reflexivity. Qed.
 
+(* heterogeneous neighbours: spinful fermions [empty, up, down, full] next to a spin-1/2 site and next to spinless
+   fermions, both orders (the two orders give different tables; taking n_i from the wrong site is visible) *)
+(* the hypothesis of T09_add_check_sound is satisfiable (a recorded case with bond dimensions 1-2-1 and 1-1-1, d = 2) *)
+Example ex_add_check : check_add_case ex_add_case = true /\
+  amplitude (tchain_of (snd ex_add_case)) [1%nat; 0%nat] 0%nat 0%nat = 2 * 4 + -3 * 72.
+Proof. vm_compute. split; reflexivity. Qed.
+
+Example ex_swap_sign_hetero :
+  swap_op_auto [0; 1; 1; 0] [0; 0] = None /\ swap_op_auto [0; 0] [0; 1; 1; 0] = None /\
+  swap_op_auto [0; 1; 1; 0] [0; 1] = Some [1; 1; 1; -1; 1; -1; 1; 1] /\
+  swap_op_auto [0; 1] [0; 1; 1; 0] = Some [1; 1; 1; 1; 1; -1; -1; 1] /\
+  swap_op_entry [0; 1; 1; 0] [0; 1] 1 2 2 1 = -1 /\ swap_op_entry [0; 1; 1; 0] [0; 1] 1 3 3 1 = 1 /\
+  swap_op_entry [0; 1; 1; 0] [0; 1] 1 2 1 1 = 0 /\
+  fock_exchange_sign 1 1 = -1 /\ fock_exchange_sign 2 1 = 1 /\ fock_exchange_sign 3 5 = -1 /\
+  is_parity [0; 1; 1; 0] /\ is_parity [0; 1].
+Proof.
+  unfold is_parity. repeat split; try (vm_compute; reflexivity); repeat (apply Forall_cons; [auto|]); apply Forall_nil.
+Qed.
+
 Print Assumptions T09_permute_terminates_sorts.
 Print Assumptions T09_permute_arrangement.
 Print Assumptions T09_inversion_involutive.
@@ -123,3 +204,5 @@ Print Assumptions T09_roll_default_form_counterexample.
 Print Assumptions T09_enlarge_denotation.
 Print Assumptions T09_add_linear.
 Print Assumptions T09_add_linear_tensors.
+Print Assumptions T09_add_check_sound.
+Print Assumptions T09_swap_sign_table.
